@@ -1,5 +1,6 @@
 import TwistedModel.Irc.Split
 import TwistedModel.Irc.Ctcp
+import TwistedModel.Irc.History
 import TwistedProps.C43.Utf8
 /-!
 C43 — IRC messages are split within the length limit without losing content; CTCP and
@@ -13,7 +14,7 @@ only whitespace included — alone or interleaved with normal text (`ctcp_string
 `ctcpQuery`/`ctcpReply`, for CTCP texts `msg()` sends whole).
 -/
 namespace TwistedProps.C43
-open Twisted.Irc.Split Twisted.Irc.Ctcp
+open Twisted.Irc.Split Twisted.Irc.Ctcp Twisted.Irc.History
 
 /-! ### The sequential `str.replace` calls are one per-character substitution -/
 
@@ -1088,5 +1089,201 @@ example : recvAll recvPrivmsg [ctcpStringify [("ACTION".toList, .text [Char.ofNa
       .ok [.query [("ACTION".toList, some [Char.ofNat 0xA0, 'x', NUL])]] :=
   (ctcp_query_client_to_client wholeWrap wholeWrap_whole 9 "#chan".toList [("ACTION".toList, .text [Char.ofNat 0xA0, 'x', NUL])]
     (by simp) (by intro m hm; simp at hm; subst hm; exact ⟨by decide, by decide⟩) (by decide) (by decide)).2.2
+
+/-! ### One client, several messages: `say`, NICKLEN, the `lineRate` queue -/
+
+/-- what the transport has seen plus what is still queued, as octets -/
+def pending (c : Conn) : List (List UInt8) := c.written ++ c.queue.map wire
+
+/-- a non-empty queue always has its timer armed; without `lineRate` nothing is ever queued -/
+def Inv (rate : Bool) (c : Conn) : Prop := (c.queue ≠ [] → c.emptying = true) ∧ (rate = false → c.queue = [])
+
+theorem tick_pending (c : Conn) : pending c.tick = pending c := by
+  unfold Conn.tick pending
+  cases h : c.queue <;> simp
+
+theorem tick_inv (rate : Bool) (c : Conn) (h : rate = false → c.queue = []) : Inv rate c.tick := by
+  unfold Conn.tick Inv
+  cases hq : c.queue with
+  | nil => simp
+  | cons l q => exact ⟨fun _ => rfl, fun hr => absurd (h hr) (by simp [hq])⟩
+
+theorem fire_pending (c : Conn) : pending c.fire = pending c := by
+  unfold Conn.fire
+  split
+  · exact tick_pending c
+  · rfl
+
+theorem fire_inv (rate : Bool) (c : Conn) (h : Inv rate c) : Inv rate c.fire := by
+  unfold Conn.fire
+  split
+  · exact tick_inv rate c h.2
+  · exact h
+
+theorem fireN_pending : ∀ (n : Nat) (c : Conn), pending (fireN n c) = pending c
+  | 0, _ => rfl
+  | n + 1, c => by rw [fireN, fireN_pending n, fire_pending]
+
+theorem fireN_inv (rate : Bool) : ∀ (n : Nat) (c : Conn), Inv rate c → Inv rate (fireN n c)
+  | 0, _, h => h
+  | n + 1, c, h => by rw [fireN]; exact fireN_inv rate n _ (fire_inv rate c h)
+
+theorem sendLine_pending (rate : Bool) (c : Conn) (line : Text) (h : Inv rate c) :
+    pending (c.sendLine rate line) = pending c ++ [wire line] := by
+  unfold Conn.sendLine
+  cases rate
+  · simp [pending, h.2 rfl]
+  · simp only [if_true]
+    split
+    · simp [pending]
+    · rw [tick_pending]; simp [pending]
+
+theorem sendLine_inv (rate : Bool) (c : Conn) (line : Text) (h : Inv rate c) : Inv rate (c.sendLine rate line) := by
+  unfold Conn.sendLine
+  cases rate
+  · exact h
+  · simp only [if_true]
+    split
+    · exact ⟨fun _ => rfl, fun hr => absurd hr (by simp)⟩
+    · exact tick_inv true _ (fun hr => absurd hr (by simp))
+
+theorem sendLines_pending (rate : Bool) : ∀ (ls : List Text) (c : Conn), Inv rate c →
+    pending (ls.foldl (Conn.sendLine rate) c) = pending c ++ ls.map wire
+  | [], c, _ => by simp
+  | l :: ls, c, h => by
+    rw [List.foldl_cons, sendLines_pending rate ls _ (sendLine_inv rate c l h), sendLine_pending rate c l h]; simp
+
+theorem sendLines_inv (rate : Bool) : ∀ (ls : List Text) (c : Conn), Inv rate c →
+    Inv rate (ls.foldl (Conn.sendLine rate) c)
+  | [], _, h => h
+  | l :: ls, c, h => by
+    rw [List.foldl_cons]; exact sendLines_inv rate ls _ (sendLine_inv rate c l h)
+
+theorem runStep_pending (wrap : Wrap) (rate : Bool) (c : Conn) (s : Step) (h : Inv rate c) :
+    pending (runStep wrap rate c s) = pending c ++ (s.sent wrap).map wire := by
+  unfold runStep
+  rw [fireN_pending, sendLines_pending rate _ c h]
+
+theorem runStep_inv (wrap : Wrap) (rate : Bool) (c : Conn) (s : Step) (h : Inv rate c) :
+    Inv rate (runStep wrap rate c s) :=
+  fireN_inv rate _ _ (sendLines_inv rate _ c h)
+
+theorem foldl_runStep_pending (wrap : Wrap) (rate : Bool) : ∀ (steps : List Step) (c : Conn), Inv rate c →
+    pending (steps.foldl (runStep wrap rate) c) = pending c ++ (steps.flatMap fun s => (s.sent wrap).map wire)
+  | [], c, _ => by simp
+  | s :: ss, c, h => by
+    rw [List.foldl_cons, foldl_runStep_pending wrap rate ss _ (runStep_inv wrap rate c s h),
+      runStep_pending wrap rate c s h]; simp
+
+theorem foldl_runStep_inv (wrap : Wrap) (rate : Bool) : ∀ (steps : List Step) (c : Conn), Inv rate c →
+    Inv rate (steps.foldl (runStep wrap rate) c)
+  | [], _, h => h
+  | s :: ss, c, h => by
+    rw [List.foldl_cons]; exact foldl_runStep_inv wrap rate ss _ (runStep_inv wrap rate c s h)
+
+theorem init_inv (rate : Bool) : Inv rate Conn.init := by simp [Inv, Conn.init]
+
+/-- **The queue loses, adds and reorders nothing, whenever the timer fires**: at every moment the
+    writes so far followed by the queued lines are the lines of the messages sent so far, in order. -/
+theorem queue_keeps_order (wrap : Wrap) (rate : Bool) (steps : List Step) :
+    pending (runHistory wrap rate steps) = steps.flatMap fun s => (s.sent wrap).map wire := by
+  unfold runHistory
+  rw [foldl_runStep_pending wrap rate steps _ (init_inv rate)]; simp [pending, Conn.init]
+
+theorem fireN_drains (rate : Bool) : ∀ (n : Nat) (c : Conn), Inv rate c → c.queue.length ≤ n → (fireN n c).queue = []
+  | 0, c, _, hn => by
+    have : c.queue.length = 0 := by omega
+    simpa [fireN] using this
+  | n + 1, c, ha, hn => by
+    rw [fireN]
+    apply fireN_drains rate n _ (fire_inv rate c ha)
+    unfold Conn.fire
+    cases hq : c.queue with
+    | nil => split <;> simp [Conn.tick, hq]
+    | cons l q =>
+      have he : c.emptying = true := ha.1 (by simp [hq])
+      simp only [he, if_true, Conn.tick, hq]
+      rw [hq] at hn
+      simp only [List.length_cons] at hn
+      omega
+
+/-- **Once the timer has run dry the transport has been written, in order, exactly the lines of
+    each message** — for every history of `msg` / `notice` / `say` calls on one client, every NICKLEN
+    in force at each call, `lineRate` set or not, and every schedule of timer firings in between. -/
+theorem history_written (wrap : Wrap) (rate : Bool) (steps : List Step) :
+    (drain (runHistory wrap rate steps)).written = (steps.flatMap fun s => (s.sent wrap).map wire) ∧
+    (drain (runHistory wrap rate steps)).queue = [] := by
+  have ha : Inv rate (runHistory wrap rate steps) :=
+    foldl_runStep_inv wrap rate steps Conn.init (init_inv rate)
+  have hq : (drain (runHistory wrap rate steps)).queue = [] :=
+    fireN_drains rate _ _ ha (by omega)
+  refine ⟨?_, hq⟩
+  have hp := fireN_pending ((runHistory wrap rate steps).queue.length + 1) (runHistory wrap rate steps)
+  rw [queue_keeps_order] at hp
+  unfold drain at hq ⊢
+  rw [← hp]
+  simp [pending, hq]
+
+/-- the octets a step writes are those of `_sendMessage` for its command and target -/
+theorem step_sent_eq_sendMessage (wrap : Wrap) (s : Step) :
+    sendMessage wrap s.nicklen s.msgType s.target s.message s.length =
+      (s.lines wrap).map fun ls => ls.map wire := by
+  rw [sendMessage_eq_sendParts]
+  unfold Step.lines
+  cases sendParts wrap s.nicklen s.msgType s.target s.message s.length with
+  | error e => rfl
+  | ok ps => simp [Except.map, List.map_map, Function.comp_def]
+
+theorem step_sent_ok (wrap : Wrap) (s : Step) :
+    (∃ lines, sendMessage wrap s.nicklen s.msgType s.target s.message s.length = .ok lines ∧
+      (s.sent wrap).map wire = lines) ∨
+    (sendMessage wrap s.nicklen s.msgType s.target s.message s.length = .error .value ∧ s.sent wrap = []) := by
+  rw [step_sent_eq_sendMessage]
+  unfold Step.sent
+  cases h : s.lines wrap with
+  | error e => cases e; right; exact ⟨rfl, rfl⟩
+  | ok ls => left; exact ⟨_, rfl, rfl⟩
+
+/-- **Every line of every message of a history is within the limit in force for that message**
+    (the given length, or the default computed from the NICKLEN in force at that call), has no CR / LF
+    before its terminator — whatever was sent before on the same client. -/
+theorem history_lines_within_limit (wrap : Wrap) (steps : List Step) (s : Step) (_ : s ∈ steps) :
+    ∀ l ∈ (s.sent wrap).map wire,
+      (l.length : Int) ≤ limitOf s.nicklen s.msgType s.target s.length ∧
+      ∃ body, l = body ++ [13, 10] ∧ ∀ b ∈ body, b ≠ 13 ∧ b ≠ 10 := by
+  intro l hl
+  rcases step_sent_ok wrap s with ⟨lines, hok, heq⟩ | ⟨_, hnil⟩
+  · rw [heq] at hl
+    exact ⟨lines_within_limit _ _ _ _ _ _ _ hok l hl, lines_no_CR_LF _ _ _ _ _ _ _ hok l hl⟩
+  · rw [hnil] at hl; simp at hl
+
+/-- **… and carries the message's non-whitespace characters in order** (per message of the history) -/
+theorem history_content_preserved (wrap : Wrap) (hw : WrapContract wrap) (s : Step)
+    (hs : s.sent wrap ≠ [] ∨ ∃ ls, s.lines wrap = .ok ls) :
+    ∃ parts : List Text, (s.sent wrap).map wire = parts.map (fun p => wire (fmtOf s.msgType s.target ++ p)) ∧
+      nonspace parts.flatten = nonspace s.message := by
+  rcases step_sent_ok wrap s with ⟨lines, hok, heq⟩ | ⟨herr, hnil⟩
+  · rw [heq]; exact content_preserved wrap hw _ _ _ _ _ _ hok
+  · exfalso
+    rcases hs with h | ⟨ls, h⟩
+    · exact h hnil
+    · rw [step_sent_eq_sendMessage, h] at herr; cases herr
+
+/-- `say(channel, …)` is `msg` to the channel with `#` put in front unless it has a prefix -/
+theorem say_target (c : Char) (cs : Text) :
+    sayTarget (c :: cs) = some (if c = '&' ∨ c = '#' ∨ c = '!' ∨ c = '+' then c :: cs else '#' :: c :: cs) := by
+  unfold sayTarget CHANNEL_PREFIXES
+  by_cases h1 : c = '&' <;> by_cases h2 : c = '#' <;> by_cases h3 : c = '!' <;> by_cases h4 : c = '+' <;>
+    simp [h1, h2, h3, h4]
+
+example : (drain (runHistory wholeWrap true
+    [⟨.say, "chan".toList, "abcdefgh".toList, some 20, 9, 1⟩,
+     ⟨.notice, "bob".toList, "x".toList, none, 30, 0⟩])).written =
+    ["PRIVMSG #chan :abc\r\n".toList.map (fun c => c.toNat.toUInt8),
+     "PRIVMSG #chan :def\r\n".toList.map (fun c => c.toNat.toUInt8),
+     "PRIVMSG #chan :gh\r\n".toList.map (fun c => c.toNat.toUInt8),
+     "NOTICE bob :x\r\n".toList.map (fun c => c.toNat.toUInt8)] := by decide
+
+example : limitOf 30 NOTICE "bob".toList none = 383 := by decide
 
 end TwistedProps.C43
